@@ -513,6 +513,6 @@ func stageSched(ctx context.Context, r *gal.Rand, w *gal.Writer, tmp string, sca
 		}
 		w.Add(gal.Case{Term: fmt.Sprintf("(KSched %s %s %s %s %s)", gal.Nat(n), badTerm, natList(perm), gal.Bool(ok), gal.StrList(installed)),
 			Class: fmt.Sprintf("sched/n=%d/bad=%v", n, bad >= 0), Trivial: false,
-			Desc:  map[string]any{"kind": "InstallPackages with scripted completion order", "n": n, "completion_order": perm, "failing_expansion": bad}})
+			Desc: map[string]any{"kind": "InstallPackages with scripted completion order", "n": n, "completion_order": perm, "failing_expansion": bad}})
 	}
 }
